@@ -677,6 +677,102 @@ class Body:
             return "&raw " + self.expr(rv["rawptr"], depth)
         return "?"
 
+    # ---- canonical (name-independent) expressions
+    def canon(self, x, depth=14, env=None):
+        """Like expr, but independent of local variable names: single-definition locals are expanded to their
+        defining expression, parameters are `argN` (`self` for a receiver), closure captures are `up<i>:<type>`,
+        and locals with several definitions (loop cursors, accumulators) become `$0, $1, …` in order of first
+        appearance.  Field and function names are kept (they are the program's own vocabulary)."""
+        if env is None:
+            env = {}
+        if depth <= 0:
+            return "…"
+        if isinstance(x, int):
+            return self._canon_local(x, depth, env)
+        if "l" in x and "p" in x:
+            return self._canon_place(x, depth, env)
+        pl = op_place(x)
+        if pl is not None:
+            return self._canon_place(pl, depth, env)
+        k = op_const(x)
+        if k is not None:
+            if "fn" in k:
+                return short_path(k["fn"].get("resolved") or k["fn"]["def"])
+            v = k.get("v", "?")
+            return v[6:] if v.startswith("const ") else v
+        return "?"
+
+    def _canon_local(self, l, depth, env):
+        if l == 0:
+            return "_ret"
+        if 1 <= l <= self.arg_count:
+            if self.kind == "Closure" and l == 1:
+                return "env"
+            if self.local_name(l) == "self":
+                return "self"
+            return "arg%d" % l
+        sd = self.single_def(l)
+        if sd is not None and not self.has_partial_writes(l):
+            if sd[0] == "stmt":
+                st = sd[3]
+                if st["k"] == "assign" and not st["lhs"]["p"]:
+                    return self._canon_rv(st["rv"], depth - 1, env)
+            elif sd[0] == "call":
+                t = sd[2]
+                if not t["dest"]["p"]:
+                    return "%s(%s)" % (short_path(callee_def(t)), ", ".join(self.canon(a, depth - 1, env) for a in t["args"]))
+        if l not in env:
+            env[l] = "$%d" % len(env)
+        return env[l]
+
+    def _canon_place(self, pl, depth, env):
+        s = self._canon_local(pl["l"], depth, env)
+        for e in pl["p"]:
+            if e == "*":
+                if s.startswith("&mut "):
+                    s = s[5:]
+                elif s.startswith("&"):
+                    s = s[1:]
+            elif isinstance(e, dict) and "f" in e:
+                if e["o"].startswith("closure:"):
+                    s = "up%d:%s" % (e["f"], e["ty"].split("::")[-1][:40])
+                else:
+                    s = "%s.%s" % (s, e["n"])
+            elif isinstance(e, dict) and "idx" in e:
+                s = "%s[%s]" % (s, self._canon_local(e["idx"], depth - 1, env))
+            elif isinstance(e, dict) and "cidx" in e:
+                s = "%s[%s%d]" % (s, "-" if e.get("from_end") else "", e["cidx"])
+            elif isinstance(e, dict) and "dc" in e:
+                s = "(%s as %s)" % (s, e["dc"])
+            elif isinstance(e, dict) and "sub_from" in e:
+                s = "%s[%d..]" % (s, e["sub_from"])
+        return s
+
+    def _canon_rv(self, rv, depth, env):
+        if "use" in rv:
+            return self.canon(rv["use"], depth, env)
+        if "ref" in rv:
+            return ("&mut " if rv.get("mut") else "&") + self.canon(rv["ref"], depth, env)
+        if "bin" in rv:
+            op = BINOPS.get(rv["bin"], rv["bin"])
+            return "(%s %s %s)" % (self.canon(rv["a"], depth, env), op, self.canon(rv["b"], depth, env))
+        if "un" in rv:
+            return "%s(%s)" % (rv["un"], self.canon(rv["a"], depth, env))
+        if "cast" in rv:
+            return "(%s as %s)" % (self.canon(rv["cast"], depth, env), rv["to"])
+        if "discr" in rv:
+            return "discr(%s)" % self.canon(rv["discr"], depth, env)
+        if "agg" in rv:
+            nm = short_path(rv.get("adt") or rv.get("def") or rv["agg"])
+            if rv.get("variant") and rv.get("agg") == "adt" and rv["variant"] != nm.split("::")[-1]:
+                nm = nm + "::" + rv["variant"]
+            return "%s{%s}" % (nm, ", ".join(self.canon(o, depth, env) for o in rv["ops"]))
+        if "repeat" in rv:
+            return "[%s; %s]" % (self.canon(rv["repeat"], depth, env), rv["count"])
+        if "rawptr" in rv:
+            return "&raw " + self.canon(rv["rawptr"], depth, env)
+        return "?"
+
     # ---- iteration helpers ----
     def calls(self, pred=None):
         """[(bb, term)] for non-cleanup, reachable call terminators matching pred(callee_def, term)."""
